@@ -610,6 +610,8 @@ def r_lazy_static(w):
         w.replace(h.start(), cb + 1, "", "R9", "lazy_static %s: %s hoisted to a shim accessor" % (name, typ))
     for name, typ, init in out:
         for h in re.finditer(r"&\s*%s\b" % re.escape(name), w.mbody):
+            if any(ed.s <= h.start() < ed.e for ed in w.edits):
+                continue
             w.replace(h.start(), h.end(), "%s_shim()" % name, "R9", "lazy static %s read through its shim accessor" % name)
         for h in re.finditer(r"(?<![&\w])%s\s*\.(\w+)\(" % re.escape(name), w.mbody):
             w.replace(h.start(), h.start() + len(name), "%s_shim()" % name, "R9", "lazy static %s read through its shim accessor" % name)
@@ -704,3 +706,87 @@ def r_for_vec_shim(w, kw_start, vec_expr_fn, invariants, idx, ensures=None, exce
     w.insert_at(ob + 1, " let %s = %s[%s]; %s += 1;" % (var, vname, idx, idx), "R12", "element binding + increment")
     w.insert_at(cb + 1, " }", "R12", "close scope")
     return var, vname
+
+
+# ----------------------------------------------------------------------------
+# R16 (general): `RECV.map_or(D, |v| B)`  ->  `(match RECV { Some(v) => B, None => D })`
+# (Option::map_or with a closure has no Verus specification; this is its definition.  D is evaluated eagerly by map_or:
+#  the rewrite is applied only when D is a literal, a path or a field access, i.e. free of side effects.)
+# ----------------------------------------------------------------------------
+
+def _receiver_start(w, dot):
+    """start offset of the postfix expression that ends just before the `.` at offset dot"""
+    m = w.mbody
+    i = dot - 1
+    while i >= 0 and m[i] in " \t\r\n":
+        i -= 1
+    while i >= 0:
+        ch = m[i]
+        if ch in ")]":
+            depth = 0
+            j = i
+            while j >= 0:
+                if m[j] in ")]":
+                    depth += 1
+                elif m[j] in "([":
+                    depth -= 1
+                    if depth == 0:
+                        break
+                j -= 1
+            i = j - 1
+            while i >= 0 and m[i] in " \t\r\n":
+                i -= 1
+            # a call / index: the callee name (if any) precedes the bracket
+            if i >= 0 and (m[i].isalnum() or m[i] == "_" or m[i] in ")]"):
+                continue
+        elif ch.isalnum() or ch == "_":
+            while i >= 0 and (m[i].isalnum() or m[i] == "_"):
+                i -= 1
+        else:
+            break
+        # continue through `.`, `::`, `?`, whitespace between chain elements
+        k = i
+        while k >= 0 and m[k] in " \t\r\n":
+            k -= 1
+        if k >= 0 and m[k] == ".":
+            i = k - 1
+            while i >= 0 and m[i] in " \t\r\n":
+                i -= 1
+            continue
+        if k >= 1 and m[k - 1:k + 1] == "::":
+            i = k - 2
+            continue
+        break
+    return i + 1
+
+
+def r16_map_or(w, inner_subst=None):
+    """inner_subst: [(regex, replacement)] applied to the receiver / closure body / default text placed into the match
+    (rewrites that other rules would have applied inside the replaced span)"""
+    n = 0
+    for h in re.finditer(r"\.\s*map_or\s*\(", w.mbody):
+        if any(ed.s <= h.start() < ed.e for ed in w.edits):
+            continue
+        po = h.end() - 1
+        pc = lexer.match_close(w.body, po)
+        inner = w.body[po + 1:pc]
+        parts = split_top_commas(inner)
+        if len(parts) != 2:
+            continue
+        dflt = inner[parts[0][0]:parts[0][1]].strip()
+        clo = inner[parts[1][0]:parts[1][1]]
+        m = re.match(r"\|\s*(\w+)\s*\|\s*(.+)$", clo, re.S)
+        if not m or not re.match(r"^[\w\.:\"' ]+$", dflt):
+            continue
+        rs = _receiver_start(w, h.start())
+        if any(not (rs >= ed.e or h.start() <= ed.s) for ed in w.edits):
+            continue
+        recv = w.body[rs:h.start()]
+        body_txt = m.group(2).strip()
+        for rx, rep in (inner_subst or []):
+            recv = re.sub(rx, rep, recv)
+            body_txt = re.sub(rx, rep, body_txt)
+        w.replace(rs, pc + 1, "(match %s { Some(%s) => %s, None => %s })" % (recv.strip(), m.group(1), body_txt, dflt), "R16",
+                  "Option::map_or(%s, |%s| ..) desugared to a match" % (dflt, m.group(1)))
+        n += 1
+    return n
